@@ -1,9 +1,11 @@
 #!/bin/sh
-# runs every registered check of a tier in sequence and prints one summary line each
+# runs every registered check of a tier (or the listed ones: run_all.sh <tier> C05 C06 ...) in sequence and prints one summary line each
 cd "$(dirname "$0")" || exit 2
-TIER="${1:-quick}"
+TIER="${1:-quick}"; [ $# -gt 0 ] && shift
+IDS="$*"
 [ -x bin/gosym ] || ./setup.sh >/dev/null
-for id in $(python3 -c "import json;print(' '.join(c['property_id'] for c in json.load(open('MANIFEST.json'))['checks']))"); do
+[ -n "$IDS" ] || IDS=$(python3 -c "import json;print(' '.join(c['property_id'] for c in json.load(open('MANIFEST.json'))['checks']))")
+for id in $IDS; do
   start=$(date +%s)
   out=$(./check "$id" "$TIER" 2>&1); rc=$?
   end=$(date +%s)
